@@ -382,12 +382,19 @@ class CDef:
 
 
 class Program:
-    def __init__(self, classes, funs, main): self.classes, self.funs, self.main = list(classes), list(funs), list(main)
+    """pre: top-level statements written BEFORE the function definitions (an outer variable that a later parameter or
+    local of the same name shadows); for the model and the specification they are the first statements of main"""
+    def __init__(self, classes, funs, main, pre=()):
+        self.classes, self.funs, self.main, self.pre = list(classes), list(funs), list(main), list(pre)
 
     def mamba(self):
         out = []
         for c in self.classes:
             out += c.mamba() + [""]
+        for s in self.pre:
+            out += s.mamba(0)
+        if self.pre:
+            out.append("")
         for f in self.funs:
             out += f.mamba(0) + [""]
         for s in self.main:
@@ -396,7 +403,7 @@ class Program:
 
     def coq(self):
         return (f"{{| p_classes := {clist(c.coq() for c in self.classes)}; p_funs := {clist(f.coq() for f in self.funs)}; "
-                f"p_main := {clist(s.coq() for s in self.main)} |}}")
+                f"p_main := {clist(s.coq() for s in self.pre + self.main)} |}}")
 
 
 # ------------------------------------------------------------------------------------------------
@@ -700,7 +707,7 @@ class Spec:
                     self.args_ok(self.funs[c.parent[0]][0], ts, "parent constructor")
             for f in self.p.funs:
                 self.fun(None, f)
-            self.block(None, {}, self.p.main)
+            self.block(None, {}, self.p.pre + self.p.main)
             return True, ""
         except NonConforming as e:
             return False, str(e)
@@ -1184,6 +1191,9 @@ class Gen:
         r = self.r
         name = self.fresh("m" if self_cls else "f")
         params = self.gen_params(name)
+        sh = getattr(self, "shadow", None)
+        if sh and not self_cls and not any(p.name == sh[0] for f in self.funs for p in f.params):
+            params.insert(0, Param(sh[0], sh[1]))      # same name as the outer nullable variable, non-nullable type
         ret = None if r.random() < 0.15 and not raises else self.maybe_null(self.any_ty())
         f = FDef(name, params, ret, [], None, raises, ret_stmt=True)
         env = {p.name: (p.ty, False) for p in params}
@@ -1237,7 +1247,9 @@ class Gen:
             f.body.append(SFor(i, EInt(0), EInt(r.randint(1, 2)), [guard]))
         else:
             f.body.append(guard)
-        cands = [EVar(x) for x, (t, _) in env.items() if t == ret and x != "self"]
+        # a trailing parameter that shadows an outer variable is judged with the OUTER variable's type (finding D100)
+        shn = (getattr(self, "shadow", None) or (None,))[0]
+        cands = [EVar(x) for x, (t, _) in env.items() if t == ret and x != "self" and x != shn]
         for g in self.finfo:
             if g[2] == ret and not g[3] and r.random() < 0.5:
                 e = ECall(g[0], [])
@@ -1299,6 +1311,9 @@ class Gen:
                 cands = [c for c in self.cinfo if all(not t.n for _, t in self.cinfo[c]["fields"])]
                 base = cands[0] if cands else None
             self.gen_class(base)
+        self.shadow = None
+        if self.profile == "null" and r.random() < 0.6:
+            self.shadow = ("s" + self.fresh("x"), r.choice([INT, STR, FLOAT]))
         for _ in range(r.randint(2, 4) if not small else 2):
             raises = [self.excs[0]] if self.excs and r.random() < 0.4 else []
             f = self.gen_fun(raises=raises)
@@ -1307,8 +1322,24 @@ class Gen:
                 f.body = [s for s in f.body if not (isinstance(s, SIf) and s.t and isinstance(s.t[0], SRaise))]
             self.funs.append(f)
             self.finfo.append((f.name, f.params, f.ret, list(f.raises)))
-        main, _ = self.block({}, 2, size, None, "top", None, False)
-        p = Program(self.classes, self.funs, main)
+        env0, pre, tail = {}, [], []
+        sh = getattr(self, "shadow", None)
+        if sh:
+            # (H) outer `def sx: T? := None` BEFORE the functions, a parameter / arm-local of the same name and a
+            # non-nullable type in between, and a use of the OUTER variable afterwards
+            sx, T = sh
+            pre = [SDef(sx, False, T.opt(), ENone() if r.random() < 0.7 else self.lit(T))]
+            env0[sx] = (T.opt(), False)
+        main, e1 = self.block(env0, 2, size, None, "top", None, False)
+        if sh:
+            if r.random() < 0.6:
+                main.append(SIf(self.exact(BOOL, {}, 1, None, "top"),
+                                [SDef(sx, False, T, self.lit(T)), SPrint(EVar(sx))], []))
+            y = self.fresh("y")
+            use = SDef(y, False, T, EQuest(EVar(sx), self.lit(T)))
+            main.append(use)
+            self.sites.append(Site("shadow-use", "top", T, use, "e", None, extra=sx))
+        p = Program(self.classes, self.funs, main, pre)
         return p, self.sites
 
 
@@ -1376,6 +1407,8 @@ def mutant_candidates(sites, kinds, prog=None):
             if "nullable-subtype" in kinds and prog is not None and site.kind == "op-recv" and related(prog, T)[1]:
                 cands.append("nullable-subtype")
             if site.kind == "op-recv" and "none" in kinds: cands.append("none")
+        elif site.kind == "shadow-use":
+            if "unwrap" in kinds: cands.append("unwrap")
         elif site.kind == "aug-op":
             # the RESULT of the operator must fit the target: `/=` on an Int is a Float, Str has no `-`
             if "aug-result" in kinds and T.c in ("Int", "Str"): cands.append("aug-result")
@@ -1396,6 +1429,8 @@ def mutant_candidates(sites, kinds, prog=None):
                         cands.append("subtype")
                 if "nullable-subtype" in kinds and sub and not T.n:
                     cands.append("nullable-subtype")
+            if "inferred-wrong" in kinds and site.kind in ("arg", "funarg", "operand", "aug-operand"):
+                cands.append("inferred-wrong")
                 if site.kind not in ("operand", "aug-operand"):
                     if "supertype-field" in kinds and T.c == "Int": cands.append("supertype-field")
                     if "subtype-field" in kinds and T.c == "Float" and not (site.kind == "setfield" and stores.get(site.holder.f, 0) > 1):
@@ -1427,6 +1462,14 @@ def apply_mutant(prog, sites, idx, mk, rng):
     elif mk == "wrong-recv":
         scope_block(pc, s).insert(0, SDef("wr", False, STR, EStr("w")))
         s.put(EVar("wr")); desc["got"] = "Str"
+    elif mk == "unwrap":
+        # the outer variable is still nullable after an inner parameter / local of the same name and another type
+        s.put(EVar(s.extra)); desc["got"] = T.mamba() + "?"
+    elif mk == "inferred-wrong":
+        # (G) the wrong type arrives through an INFERRED local: `def iw := "zz"` (no annotation) then `d.fetch(iw)`
+        e = copy.deepcopy(rng.choice(WRONG[T.c])) if T.c in WRONG else EInt(3)
+        scope_block(pc, s).insert(0, SDef("iw", False, None, e))
+        s.put(EVar("iw")); desc["got"] = "inferred " + type(e).__name__[1:]
     elif mk == "aug-result":
         s.put("/" if T.c == "Int" else "-"); desc["got"] = "Float" if T.c == "Int" else "no such operator"
     elif mk == "nullable-subtype":
@@ -1928,6 +1971,48 @@ def corpus():
         src="def t: (Int, Int?) := (1, None)\n", note="None is an Int?; a tuple literal of the declared element types")
     add("tuple-nullable-element-value", "conforming", "C06", "init", "-", "top",
         src="def t: (Int, Int?) := (1, 2)\n", note="an Int is an Int?")
+    # ---- (G) the argument's type flows through an INFERRED local
+    Dcls = C([("k", INT)], [FDef("fetch", [_p("what", STR)], STR, [], EVar("what"))], name="Dd")
+    mkd = SDef("d", False, None, ECall("Dd", [EInt(1)]))
+    takes_str = FDef("takes", [_p("what", STR)], STR, [], EVar("what"))
+    add("inferred-local-wrong-method-arg", "nonconforming", "C05", "arg", "inferred-wrong", "top/nested-arg",
+        Program([Dcls], [], [mkd, SDef("thing", False, None, EInt(7)), SPrint(EMeth(EVar("d"), "fetch", [EVar("thing")]))]))
+    add("annotated-local-wrong-method-arg", "nonconforming", "C05", "arg", "wrong-type", "top/nested-arg",
+        Program([Dcls], [], [mkd, SDef("thing", False, INT, EInt(7)), SPrint(EMeth(EVar("d"), "fetch", [EVar("thing")]))]))
+    add("inferred-local-ok-method-arg", "conforming", "C05", "arg", "-", "top/nested-arg",
+        Program([Dcls], [], [mkd, SDef("thing", False, None, EStr("k")), SPrint(EMeth(EVar("d"), "fetch", [EVar("thing")]))]))
+    add("inferred-local-wrong-function-arg", "nonconforming", "C05", "funarg", "inferred-wrong", "top/nested-arg",
+        Program([], [takes_str], [SDef("thing", False, None, EInt(7)), SPrint(ECall("takes", [EVar("thing")]))]))
+    add("inferred-local-wrong-operand", "nonconforming", "C05", "operand", "inferred-wrong", "top",
+        Program([], [], [SDef("thing", False, None, EStr("z")), SPrint(EOp("+", EInt(1), EVar("thing")))]))
+    nest = lambda val: FDef("walk", [_p("n", INT)], None,
+                            [SDef("d", False, None, ECall("Dd", [EInt(1)])), SDef("thing", False, None, val),
+                             SFor("i", EInt(0), EVar("n"), [SMatch(EVar("i"), [(1, [SPrint(EMeth(EVar("d"), "fetch", [EVar("thing")]))]),
+                                                                              (None, [SPrint(EVar("i"))])])])], None)
+    add("inferred-local-wrong-method-arg-nested", "nonconforming", "C05", "arg", "inferred-wrong", "fun/loop/match-arm/nested-arg",
+        Program([Dcls], [nest(EInt(7))], [SExpr(ECall("walk", [EInt(2)]))]))
+    add("inferred-local-ok-method-arg-nested", "conforming", "C05", "arg", "-", "fun/loop/match-arm/nested-arg",
+        Program([Dcls], [nest(EStr("k"))], [SExpr(ECall("walk", [EInt(2)]))]))
+    # ---- (H) an outer nullable variable, an inner parameter / local of the same name and a non-nullable type, outer use after
+    outer = [SDef("x", False, INT.opt(), ENone())]
+    fpar = FDef("f", [_p("x", INT)], INT, [], EOp("+", EVar("x"), EInt(1)))
+    floc = FDef("g", [], INT, [SDef("x", False, INT, EInt(1))], EVar("x"))
+    arm = SIf(EBool(True), [SDef("x", False, INT, EInt(1)), SPrint(EVar("x"))], [])
+    for nm, funs, mid in (("param", [fpar], []), ("function-local", [floc], []), ("arm-local", [], [arm])):
+        add(f"shadow-{nm}-outer-still-nullable", "nonconforming", "C06", "shadow-use", "unwrap", "top",
+            Program([], funs, mid + [SDef("y", False, INT, EVar("x"))], pre=outer))
+        add(f"shadow-{nm}-outer-with-default", "conforming", "C06 C04", "shadow-use", "-", "top",
+            Program([], funs, mid + [SDef("y", False, INT, EQuest(EVar("x"), EInt(0))), SPrint(EVar("y"))], pre=outer))
+    bare = lambda pty, ret: FDef("f", [_p("x", pty)], ret, [], EVar("x"), ret_stmt=False)
+    add("shadow-trailing-param-wrong-type", "nonconforming", "C05 C04", "trail", "shadowed-param", "fun",
+        Program([], [bare(STR, INT)], [SPrint(EOp("+", ECall("f", [EStr("a")]), EInt(1)))], pre=[SDef("x", False, INT, EInt(1))]),
+        wrong="TypeError")
+    add("shadow-trailing-param-nullable", "nonconforming", "C06 C04", "trail", "shadowed-param", "fun",
+        Program([], [bare(INT.opt(), INT)], [SDef("n", False, INT.opt(), ENone()),
+                                             SPrint(EOp("+", ECall("f", [EVar("n")]), EInt(1)))],
+                pre=[SDef("x", False, INT, EInt(1))]), wrong="TypeError")
+    add("shadow-trailing-param-over-rejected", "conforming", "C06", "trail", "shadowed-param", "fun",
+        Program([], [bare(INT, INT)], [SPrint(ECall("f", [EInt(2)]))], pre=[SDef("x", False, INT.opt(), ENone())]))
     # ---- sanity: plain conforming / non-conforming cases on which everybody agrees
     add("sanity-accept", "conforming", "C05 C06 C04", "-", "-", "top",
         Program([C([("a", INT)], [m_add])], [FDef("f", [_p("x", FLOAT), _p("s", STR, EStr("d"))], FLOAT.opt(),
